@@ -162,7 +162,7 @@ fn render(m: &Model) -> String {
     s
 }
 
-fn expected_markers(lang: LangId, sl: &Slot) -> BTreeSet<String> {
+fn expected_markers(lang: LangId, cfg: &LangCfg, sl: &Slot) -> BTreeSet<String> {
     let mut m = BTreeSet::new();
     if !sl.optional() {
         return m;
@@ -182,6 +182,8 @@ fn expected_markers(lang: LangId, sl: &Slot) -> BTreeSet<String> {
         LangId::Kotlin => add(&mut m, &["?", "=null"]),
         LangId::Swift => add(&mut m, &["?"]),
         LangId::Scala => add(&mut m, &["Option", "=None"]),
+        // `[go] no_pointer_slice`: Option<Vec<T>> is the nil-able slice itself, still omitted when empty
+        LangId::Go if cfg.no_pointer_slice && sl.opt == 1 && sl.t.starts_with("Vec<") => add(&mut m, &["omitempty"]),
         LangId::Go => add(&mut m, &["ptr", "omitempty"]),
         LangId::Python => add(&mut m, &["Optional", "default=None"]),
     }
@@ -217,9 +219,12 @@ fn check_group(case: &Case<Model>, rep: &mut Report, position: &str, grp: &[Slot
         rep.count(&format!("fields_checked_{lname}"), 1);
         let cls = format!("opt{}|default{}|wrap{}", sl.opt, sl.default, sl.wrap);
         if sl.optional() {
-            rep.cell(format!("{lname}|{position}|{cls}|{}", base_class(&sl.t)));
+            rep.cell(format!("{lname}|{position}|{cls}|{}{}", base_class(&sl.t), if case.cfg.no_pointer_slice { "|no_pointer_slice" } else { "" }));
         }
-        let want = expected_markers(case.lang, sl);
+        if case.cfg.no_pointer_slice {
+            rep.count("go_fields_checked_under_no_pointer_slice", 1);
+        }
+        let want = expected_markers(case.lang, case.cfg, sl);
         // markers that do not concern optionality are ignored
         let relevant = ["?", "|null", "|undefined", "=null", "=None", "=_", "ptr", "omitempty", "Option", "Optional", "default=None", "=default"];
         let got: BTreeSet<String> = ff.markers.iter().filter(|m| relevant.contains(&m.as_str())).cloned().collect();
@@ -328,7 +333,9 @@ fn judge(case: &Case<Model>, rep: &mut Report) {
         rep.count(&format!("aliases_checked_{lname}"), 1);
         rep.cell(format!("{lname}|alias|{}", base_class(&pair[0].1)));
         let nullable = |d: &crate::ir::Def, t: &TypeExpr| matches!(t, TypeExpr::Nullable(_)) || d.alias_markers.contains("|undefined") || d.alias_markers.contains("?");
-        if !nullable(dopt, to) {
+        // Go with no_pointer_slice: the slice type is its own nil-able form (documented meaning of the option)
+        let nil_able_slice = case.lang == LangId::Go && case.cfg.no_pointer_slice && pair[1].1.starts_with("Vec<");
+        if !nullable(dopt, to) && !nil_able_slice {
             rep.violate(format!("C04|{lname}|alias|optional-alias-not-marked"), format!("alias {} = Option<{}> is not optional: {}", pair[1].0, pair[1].1, to.show()), case.detail(json!({"alias": pair[1].0})));
         }
         if nullable(dr, tr) {
@@ -368,6 +375,9 @@ pub fn run(ctx: &Ctx) -> (Spec, Report) {
                     if matches!(l, LangId::Swift | LangId::Kotlin) && rng.chance(1, 3) {
                         c.prefix = "Pf".into();
                     }
+                    if *l == LangId::Go {
+                        c.no_pointer_slice = rng.coin();
+                    }
                     (*l, c)
                 })
                 .collect();
@@ -377,7 +387,7 @@ pub fn run(ctx: &Ctx) -> (Spec, Report) {
     );
     let spec = Spec {
         level: "exploration",
-        rule: format!("{n} programs: for each base type T (primitives, containers, user types, generic parameters) the full product {{T, Option<T>, Option<Option<T>>}} x {{no default, #[serde(default)], merged with rename, merged with skip_serializing_if}} plus Box/Arc-wrapped forms (first {n_exh} programs enumerate it per base type), then random compositions; positions: struct field, struct-variant field, newtype payload, alias; 6 languages; oracle: marker set per language idiom from `is_option || has_default`, and type equality with a required sibling of the same T; distinct = (language, position, opt/default/wrap cell, base-type class)"),
+        rule: format!("{n} programs: for each base type T (primitives, containers, user types, generic parameters) the full product {{T, Option<T>, Option<Option<T>>}} x {{no default, #[serde(default)], merged with rename, merged with skip_serializing_if}} plus Box/Arc-wrapped forms (first {n_exh} programs enumerate it per base type), then random compositions; positions: struct field, struct-variant field, newtype payload, alias; 6 languages (Go with and without `no_pointer_slice`); oracle: marker set per language idiom from `is_option || has_default`, and type equality with a required sibling of the same T; distinct = (language, position, opt/default/wrap cell, base-type class)"),
         assumptions: vec![
             "double options must stay distinguishable only in TypeScript (`?` + `| null`), as the property says".into(),
             "Go newtype payloads are judged on type equality only: the accessor's pointer is an implementation detail of struct-typed payloads".into(),
